@@ -116,7 +116,7 @@ Proof.
 Qed.
 
 (* ---- closedness: every reference of the expansion resolves ------------------- *)
-Definition resolves (D : list (bool * bytes)) (f : ofield) : bool := ref_resolves D (f_type f).
+Definition resolves (D : list (bool * bytes)) (f : ofield) : bool := field_resolves D f.
 
 Lemma closed_unfold : forall cs, closed cs = forallb (resolves (defined cs)) (fields_of cs).
 Proof. reflexivity. Qed.
@@ -136,13 +136,13 @@ Qed.
 
 Lemma resolves_object : forall D n j r q fl p t fi,
   In (false, n) D -> resolves D (mkF j (TObject [] n) r q fl p t fi) = true.
-Proof. intros. unfold resolves, ref_resolves. cbn [f_type]. now apply resolves_local. Qed.
+Proof. intros. unfold resolves, field_resolves, ref_resolves. cbn [f_type f_inline mkF]. rewrite andb_true_r. now apply resolves_local. Qed.
 Lemma resolves_oneof : forall D n j r q fl p t fi,
   In (false, n) D -> resolves D (mkF j (TOneof [] n) r q fl p t fi) = true.
-Proof. intros. unfold resolves, ref_resolves. cbn [f_type]. now apply resolves_local. Qed.
+Proof. intros. unfold resolves, field_resolves, ref_resolves. cbn [f_type f_inline mkF]. rewrite andb_true_r. now apply resolves_local. Qed.
 Lemma resolves_enum : forall D n j r q fl p t fi,
   In (true, n) D -> resolves D (mkF j (TEnum [] n) r q fl p t fi) = true.
-Proof. intros. unfold resolves, ref_resolves. cbn [f_type]. now apply resolves_local. Qed.
+Proof. intros. unfold resolves, field_resolves, ref_resolves. cbn [f_type f_inline mkF]. rewrite andb_true_r. now apply resolves_local. Qed.
 
 (* scalar and key fields carry no reference *)
 Definition is_ref_item (i : ikind) : bool :=
@@ -152,12 +152,25 @@ Definition is_ref_field (u : ufield) : bool :=
   | KObject _ | KOneof _ | KEnum _ => true
   | KArray i => is_ref_item i
   | KMap i => is_ref_item i
+  | KInlineObject fs => existsb (fun s => is_ref_item (sf_kind s)) fs
+  | KInlineOneof fs => existsb (fun s => is_ref_item (sf_kind s)) fs
   | _ => false
   end.
+Lemma item_scalar_resolves : forall D i, is_ref_item i = false -> ref_resolves D (otype_of_item i) = true.
+Proof. intros D [pt k|tn k|n|n|n] H; try reflexivity; discriminate. Qed.
+Lemma sfields_scalar_resolve : forall D fs, existsb (fun s => is_ref_item (sf_kind s)) fs = false ->
+  forallb (fun s => ref_resolves D (otype_of_item (sf_kind s))) fs = true.
+Proof.
+  induction fs as [|s fs IH]; intros H; [reflexivity|]. cbn in H. apply orb_false_iff in H. destruct H as [H1 H2].
+  cbn [forallb]. now rewrite (item_scalar_resolves D _ H1), IH.
+Qed.
 Lemma resolves_ufield_scalar : forall D u, is_ref_field u = false -> resolves D (of_ufield u) = true.
 Proof.
-  intros D [n [pt k|nm|nm|nm|p f t|tn k|i|i] r o] H; try reflexivity; try discriminate;
-    destruct i; try reflexivity; discriminate.
+  intros D [n [pt k|nm|nm|nm|p f t|tn k|i|i|fs|fs|os] r o] H; try reflexivity; try discriminate.
+  - unfold resolves, field_resolves. cbn. rewrite andb_true_r. now apply item_scalar_resolves.
+  - unfold resolves, field_resolves. cbn. rewrite andb_true_r. now apply item_scalar_resolves.
+  - unfold resolves, field_resolves. cbn. now apply sfields_scalar_resolve.
+  - unfold resolves, field_resolves. cbn. now apply sfields_scalar_resolve.
 Qed.
 
 (* what the user's own object references must name for the file to convert *)
@@ -673,21 +686,21 @@ Theorem keys_in_declaration_order : forall e,
   map f_json (m_fields (keys_msg e)) = map (fun k => uf_name (k_def k)) (e_keys e).
 Proof.
   intros e. unfold keys_msg. cbn [m_fields]. rewrite map_map. apply map_ext.
-  intros [[n [pt k|nm|nm|nm|p f t|tn k|i|i] r o] s]; reflexivity.
+  intros [[n [pt k|nm|nm|nm|p f t|tn k|i|i|fs|fs|os] r o] s]; reflexivity.
 Qed.
 
 Theorem primary_keys_required : forall e f,
   In f (m_fields (keys_msg e)) -> f_primary f = true -> f_required f = true.
 Proof.
   intros e f Hf Hp. unfold keys_msg in Hf. cbn [m_fields] in Hf.
-  apply in_map_iff in Hf. destruct Hf as [[[n [pt k|nm|nm|nm|p fk t|tn k|i|i] r o] s] [<- _]]; cbn in *; try discriminate.
+  apply in_map_iff in Hf. destruct Hf as [[[n [pt k|nm|nm|nm|p fk t|tn k|i|i|fs|fs|os] r o] s] [<- _]]; cbn in *; try discriminate.
   subst p. apply orb_true_r.
 Qed.
 
 Definition primary_keys (e : entity) : list ufield := filter is_primary (map k_def (e_keys e)).
 
 Lemma primary_is_key : forall u, is_primary u = true -> is_key_field u = true.
-Proof. intros [n [pt k|nm|nm|nm|p f t|tn k|i|i] r o] H; try discriminate; reflexivity. Qed.
+Proof. intros [n [pt k|nm|nm|nm|p f t|tn k|i|i|fs|fs|os] r o] H; try discriminate; reflexivity. Qed.
 
 (* the primary keys are, in declaration order, among the Get/Events path keys ... *)
 Theorem get_keys_primary : forall e, filter is_primary (get_keys e) = primary_keys e.
@@ -1124,8 +1137,16 @@ Proof.
             existsb (fun d => Bool.eqb (fst d) b && bytes_eqb (snd d) n) D' = true).
   { intros b n Hx. apply existsb_exists in Hx. destruct Hx as [d [Hd Hp]].
     apply existsb_exists. exists d. split; [now apply Hi|assumption]. }
-  induction t as [pt k|p n|p n|p n|tn k|v IH]; intros H; cbn [ref_resolves] in *;
-    [reflexivity| | | |reflexivity|now apply IH]; destruct p; try assumption; now apply L.
+  induction t as [pt k|p n|p n|p n|tn k|v IH|n k]; intros H; cbn [ref_resolves] in *;
+    [reflexivity| | | |reflexivity|now apply IH|reflexivity]; destruct p; try assumption; now apply L.
+Qed.
+
+Lemma field_resolves_mono : forall D D' f,
+  incl D D' -> field_resolves D f = true -> field_resolves D' f = true.
+Proof.
+  intros D D' f Hi H. unfold field_resolves in *. apply andb_true_iff in H. destruct H as [H1 H2].
+  rewrite (ref_resolves_mono D D' _ Hi H1). cbn [andb]. destruct (f_inline f) as [il|]; [|reflexivity].
+  apply forallb_forall. intros s Hs. rewrite forallb_forall in H2. exact (ref_resolves_mono D D' _ Hi (H2 s Hs)).
 Qed.
 
 Lemma closed_app : forall a b, closed a = true -> closed b = true -> closed (a ++ b) = true.
@@ -1133,9 +1154,9 @@ Proof.
   intros a b Ha Hb. rewrite closed_unfold in *. rewrite fields_of_app, defined_app, forallb_app.
   apply andb_true_iff. split; apply forallb_forall; intros f Hf.
   - rewrite forallb_forall in Ha. specialize (Ha f Hf). unfold resolves in *.
-    eapply ref_resolves_mono; [|exact Ha]. apply incl_appl, incl_refl.
+    eapply field_resolves_mono; [|exact Ha]. apply incl_appl, incl_refl.
   - rewrite forallb_forall in Hb. specialize (Hb f Hf). unfold resolves in *.
-    eapply ref_resolves_mono; [|exact Hb]. apply incl_appr, incl_refl.
+    eapply field_resolves_mono; [|exact Hb]. apply incl_appr, incl_refl.
 Qed.
 
 Lemma compile_ok_inv : forall e cs, convert e = Ok cs -> expand e = Ok cs /\ closed cs = true.
